@@ -13,3 +13,10 @@ void h_dialer_hold(void) { nni_dialer *d; VP_HAVOC_GHOSTS(); nni_dialer_hold(d);
 void h_dialer_rele(void) { nni_dialer *d; VP_HAVOC_GHOSTS(); nni_dialer_rele(d); VP_CANARY(); }
 void h_listener_hold(void) { nni_listener *l; VP_HAVOC_GHOSTS(); nni_listener_hold(l); VP_CANARY(); }
 void h_listener_rele(void) { nni_listener *l; VP_HAVOC_GHOSTS(); nni_listener_rele(l); VP_CANARY(); }
+/* lemma harness (no function under contract, run WITHOUT DFCC): the static initialisers of the id maps of pipe.c / dialer.c / listener.c fix the documented range 1..0x7fffffff */
+void h_id_ranges_p(void) {
+	__CPROVER_assert(pipes.id_min_val == 1 && pipes.id_max_val == 0x7fffffff && pipes.id_static && pipes.id_random, "pipes: range 1..0x7fffffff, random start");
+	__CPROVER_assert(dialers.id_min_val == 1 && dialers.id_max_val == 0x7fffffff && dialers.id_static, "dialers: range 1..0x7fffffff");
+	__CPROVER_assert(listeners.id_min_val == 1 && listeners.id_max_val == 0x7fffffff && listeners.id_static, "listeners: range 1..0x7fffffff");
+	VP_CANARY();
+}
